@@ -18,7 +18,7 @@ use crate::{
     ensure,
 };
 
-const RULE: &str = "a case = a label filter (include-all / allow-list over a subset of the field pool / a custom filter deciding on metric name and label) and 1-2 threads sharing one subscriber, each executing 2-25 operations: open a span (a call site with six Option-valued fields of types str, i64, bool, u64, f64, Display, or a field-less call site) nested under the current one up to depth 4, close the innermost span, record() a field on any open span, emit a counter/gauge/histogram whose own labels overlap the field pool. A reference model (per span: creation fields, then the parent's map as of creation for missing names, later records overwrite) predicts the name->value label map the inner recorder receives. Non-trivial = some field name occurs at >= 2 of {metric, inner span, outer span} for an emission. Distinct = distinct decoded cases.";
+const RULE: &str = "a case = a label filter (include-all / allow-list over a subset of the field pool / a custom filter deciding on metric name and label) and 1-2 threads sharing one subscriber, each executing 2-25 operations: open a span (a call site with six Option-valued fields of types str, i64, bool, u64, f64, Display, or a field-less call site) nested under the current one (or created with an explicit parent that is another open span, or as an explicit root) up to depth 4, close the innermost span, record() a field on any open span, emit a counter/gauge/histogram whose own labels overlap the field pool. A reference model (per span: creation fields, then the parent's map as of creation for missing names, later records overwrite) predicts the name->value label map the inner recorder receives. Non-trivial = some field name occurs at >= 2 of {metric, inner span, outer span} for an emission. Distinct = distinct decoded cases.";
 
 static META: Metadata<'static> = Metadata::new("c17", Level::INFO, None);
 
@@ -58,9 +58,16 @@ fn dec_val(src: &mut Source, field: usize) -> Val {
     }
 }
 
+#[derive(Debug, Clone, Copy, PartialEq)]
+enum Parent {
+    Contextual,
+    Root,
+    Explicit(usize), // an open span of the stack (index modulo depth), not necessarily the current one
+}
+
 #[derive(Debug, Clone)]
 enum Op2 {
-    Open { fields: [Option<Val>; 6], empty_site: bool },
+    Open { fields: [Option<Val>; 6], empty_site: bool, parent: Parent },
     Close,
     Record { level: usize, field: usize, val: Val },
     Emit { kind: char, name: String, labels: Vec<(String, String)> },
@@ -93,7 +100,12 @@ fn dec_ops(src: &mut Source) -> Vec<Op2> {
                         }
                     }
                 }
-                Op2::Open { fields, empty_site }
+                let parent = match src.below(8) {
+                    0 => Parent::Root,
+                    1 | 2 => Parent::Explicit(src.below(4)),
+                    _ => Parent::Contextual,
+                };
+                Op2::Open { fields, empty_site, parent }
             }
             3 => Op2::Close,
             4 => {
@@ -137,9 +149,14 @@ fn admits(filter: &Filter, metric: &str, k: &str, v: &str) -> bool {
     }
 }
 
-fn open_span(fields: &[Option<Val>; 6], empty_site: bool) -> tracing::Span {
+fn open_span(fields: &[Option<Val>; 6], empty_site: bool, parent: Option<Option<&tracing::Span>>) -> tracing::Span {
+    // parent: None = contextual, Some(None) = explicit root, Some(Some(p)) = explicit parent
     if empty_site {
-        return tracing::span!(tracing::Level::INFO, "fieldless");
+        return match parent {
+            None => tracing::span!(tracing::Level::INFO, "fieldless"),
+            Some(None) => tracing::span!(parent: None, tracing::Level::INFO, "fieldless"),
+            Some(Some(p)) => tracing::span!(parent: p, tracing::Level::INFO, "fieldless"),
+        };
     }
     let a = fields[0].as_ref().map(|v| if let Val::Str(s) = v { s.as_str() } else { "" });
     let b = fields[1].as_ref().map(|v| if let Val::I64(x) = v { *x } else { 0 });
@@ -147,7 +164,11 @@ fn open_span(fields: &[Option<Val>; 6], empty_site: bool) -> tracing::Span {
     let d = fields[3].as_ref().map(|v| if let Val::U64(x) = v { *x } else { 0 });
     let e = fields[4].as_ref().map(|v| if let Val::F64(x) = v { *x } else { 0.0 });
     let f = fields[5].as_ref().map(|v| if let Val::Disp(s) = v { tracing::field::display(s.clone()) } else { tracing::field::display(String::new()) });
-    tracing::span!(tracing::Level::INFO, "six_fields", a = a, b = b, c = c, d = d, e = e, f = f)
+    match parent {
+        None => tracing::span!(tracing::Level::INFO, "six_fields", a = a, b = b, c = c, d = d, e = e, f = f),
+        Some(None) => tracing::span!(parent: None, tracing::Level::INFO, "six_fields", a = a, b = b, c = c, d = d, e = e, f = f),
+        Some(Some(p)) => tracing::span!(parent: p, tracing::Level::INFO, "six_fields", a = a, b = b, c = c, d = d, e = e, f = f),
+    }
 }
 
 fn record_on(span: &tracing::Span, field: usize, val: &Val) {
@@ -187,14 +208,40 @@ fn run_thread(ops: &[Op2], filter: &Filter, rec: &(dyn Recorder + Sync), log: &c
     let me = std::thread::current().id();
     let mut stack: Vec<(EnteredSpan, MapModel, bool)> = vec![]; // (span, model map, has fields callsite)
     let mut nontrivial = false;
+    let mut explicit_parent_differs = false;
     let result = (|| -> Result<(), Fail> {
         for op in ops {
             match op {
-                Op2::Open { fields, empty_site } => {
+                Op2::Open { fields, empty_site, parent } => {
                     if stack.len() >= 4 {
                         continue;
                     }
-                    let span = open_span(fields, *empty_site);
+                    // which span the new one descends from
+                    let parent_idx: Option<usize> = match parent {
+                        Parent::Contextual => stack.len().checked_sub(1),
+                        Parent::Root => None,
+                        Parent::Explicit(l) => {
+                            if stack.is_empty() {
+                                None
+                            } else {
+                                Some(*l % stack.len())
+                            }
+                        }
+                    };
+                    let span = match parent {
+                        Parent::Contextual => open_span(fields, *empty_site, None),
+                        Parent::Root => open_span(fields, *empty_site, Some(None)),
+                        Parent::Explicit(_) => match parent_idx {
+                            Some(i) => {
+                                let p: &tracing::Span = &stack[i].0;
+                                open_span(fields, *empty_site, Some(Some(p)))
+                            }
+                            None => open_span(fields, *empty_site, Some(None)),
+                        },
+                    };
+                    if *parent != Parent::Contextual && parent_idx != stack.len().checked_sub(1) {
+                        explicit_parent_differs = true;
+                    }
                     let mut map: MapModel = vec![];
                     if !*empty_site {
                         for (i, f) in fields.iter().enumerate() {
@@ -203,8 +250,8 @@ fn run_thread(ops: &[Op2], filter: &Filter, rec: &(dyn Recorder + Sync), log: &c
                             }
                         }
                     }
-                    if let Some((_, parent, _)) = stack.last() {
-                        for (k, v) in parent {
+                    if let Some(pi) = parent_idx {
+                        for (k, v) in &stack[pi].1 {
                             if !map.iter().any(|(n, _)| n == k) {
                                 map.push((k.clone(), v.clone()));
                             }
@@ -276,6 +323,7 @@ fn run_thread(ops: &[Op2], filter: &Filter, rec: &(dyn Recorder + Sync), log: &c
     while let Some(s) = stack.pop() {
         drop(s);
     }
+    let _ = explicit_parent_differs;
     result.map(|_| nontrivial)
 }
 
